@@ -28,8 +28,25 @@ use crate::command::terminate_driver_flyweight::TerminateDriverFlyweight;
 use crate::concurrent::atomic_buffer::AtomicBuffer;
 use crate::concurrent::ring_buffer::ManyToOneRingBuffer;
 use crate::log;
-use crate::utils::errors::{AeronError, IllegalStateError};
+use crate::utils::errors::{AeronError, IllegalArgumentError, IllegalStateError};
 use crate::utils::types::Index;
+
+/// Commands are encoded in a scratch buffer of this length before they are copied to the ring.
+const COMMAND_BUFFER_LENGTH: usize = 512;
+
+/// A command which does not fit in to the scratch buffer is rejected before anything is written
+/// (a correlation id is not consumed either).
+fn ensure_command_fits(encoded_length: usize) -> Result<(), AeronError> {
+    if encoded_length > COMMAND_BUFFER_LENGTH {
+        return Err(IllegalArgumentError::EncodedMessageExceedsMaxMessageLength {
+            length: encoded_length.min(i32::MAX as usize) as i32,
+            max_message_length: COMMAND_BUFFER_LENGTH as i32,
+        }
+        .into());
+    }
+
+    Ok(())
+}
 
 pub struct DriverProxy {
     to_driver_command_buffer: Arc<ManyToOneRingBuffer>,
@@ -53,6 +70,7 @@ impl DriverProxy {
     }
 
     pub fn add_publication(&self, channel: CString, stream_id: i32) -> Result<i64, AeronError> {
+        ensure_command_fits(PublicationMessageFlyweight::encoded_length(channel.as_bytes().len()))?;
         let correlation_id = self.to_driver_command_buffer.next_correlation_id();
 
         self.write_command_to_driver(|buffer, length| {
@@ -72,6 +90,7 @@ impl DriverProxy {
     }
 
     pub fn add_exclusive_publication(&self, channel: CString, stream_id: i32) -> Result<i64, AeronError> {
+        ensure_command_fits(PublicationMessageFlyweight::encoded_length(channel.as_bytes().len()))?;
         let correlation_id = self.to_driver_command_buffer.next_correlation_id();
         self.write_command_to_driver(|buffer, length| {
             let mut publication_message = PublicationMessageFlyweight::new(buffer, 0);
@@ -108,6 +127,7 @@ impl DriverProxy {
     }
 
     pub fn add_subscription(&self, channel: CString, stream_id: i32) -> Result<i64, AeronError> {
+        ensure_command_fits(SubscriptionMessageFlyweight::encoded_length(channel.as_bytes().len()))?;
         let correlation_id = self.to_driver_command_buffer.next_correlation_id();
 
         self.write_command_to_driver(|buffer, length| {
@@ -158,6 +178,7 @@ impl DriverProxy {
     }
 
     pub fn add_destination(&self, publication_registration_id: i64, channel: CString) -> Result<i64, AeronError> {
+        ensure_command_fits(DestinationMessageFlyweight::encoded_length(channel.as_bytes().len()))?;
         let correlation_id = self.to_driver_command_buffer.next_correlation_id();
 
         self.write_command_to_driver(|buffer, length| {
@@ -177,6 +198,7 @@ impl DriverProxy {
     }
 
     pub fn remove_destination(&self, publication_registration_id: i64, channel: CString) -> Result<i64, AeronError> {
+        ensure_command_fits(DestinationMessageFlyweight::encoded_length(channel.as_bytes().len()))?;
         let correlation_id = self.to_driver_command_buffer.next_correlation_id();
 
         self.write_command_to_driver(|buffer, length| {
@@ -196,6 +218,7 @@ impl DriverProxy {
     }
 
     pub fn add_rcv_destination(&self, subscription_registration_id: i64, channel: CString) -> Result<i64, AeronError> {
+        ensure_command_fits(DestinationMessageFlyweight::encoded_length(channel.as_bytes().len()))?;
         let correlation_id = self.to_driver_command_buffer.next_correlation_id();
 
         self.write_command_to_driver(|buffer, length| {
@@ -215,6 +238,7 @@ impl DriverProxy {
     }
 
     pub fn remove_rcv_destination(&self, subscription_registration_id: i64, channel: CString) -> Result<i64, AeronError> {
+        ensure_command_fits(DestinationMessageFlyweight::encoded_length(channel.as_bytes().len()))?;
         let correlation_id = self.to_driver_command_buffer.next_correlation_id();
 
         self.write_command_to_driver(|buffer, length| {
@@ -234,6 +258,7 @@ impl DriverProxy {
     }
 
     pub fn add_counter(&self, type_id: i32, key: &[u8], label: CString) -> Result<i64, AeronError> {
+        ensure_command_fits(CounterMessageFlyweight::encoded_length(key.len(), label.as_bytes().len()))?;
         let correlation_id = self.to_driver_command_buffer.next_correlation_id();
 
         self.write_command_to_driver(|buffer, length| {
@@ -291,6 +316,7 @@ impl DriverProxy {
     }
 
     pub fn terminate_driver(&self, token_buffer: &[u8]) -> Result<(), AeronError> {
+        ensure_command_fits(TerminateDriverFlyweight::encoded_length(token_buffer.len()))?;
         self.write_command_to_driver(|buffer, length| {
             let mut request = TerminateDriverFlyweight::new(buffer, 0);
 
@@ -332,13 +358,13 @@ impl DriverProxy {
 /// the buffer (may be) faster it could be aligned to CACHE_LINE_LENGTH (64 bytes for modern x86 CPUs)
 #[repr(C, align(16))]
 struct DriverProxyCommandBuffer {
-    data: [u8; 512],
+    data: [u8; COMMAND_BUFFER_LENGTH],
 }
 
 impl Default for DriverProxyCommandBuffer {
     fn default() -> Self {
         Self {
-            data: [0; 512], // zero the memory
+            data: [0; COMMAND_BUFFER_LENGTH], // zero the memory
         }
     }
 }
